@@ -21,10 +21,11 @@ const (
 	hCallInFlight
 	hStream
 	hDeadPeer
+	hDeadPeerReset // the peer's death is reported by a read error other than EOF (a reset, a timeout)
 	nHist
 )
 
-var histNames = []string{"idle", "used", "call-in-flight", "open-stream", "dead-peer"}
+var histNames = []string{"idle", "used", "call-in-flight", "open-stream", "dead-peer", "dead-peer-read-error"}
 
 func census(x *X, n *FakeNet, what string) {
 	for _, t := range blockedThreads(nil) {
@@ -69,6 +70,10 @@ func c20ConnServer(x *X) {
 		c := newUcall(1, 0, 20, formCall)
 		c.issue(f.conn)
 		f.clientEnd(0).Kill()
+	case hDeadPeerReset:
+		c := newUcall(1, 0, 20, formCall)
+		c.issue(f.conn)
+		f.clientEnd(0).Reset()
 	}
 	vs.Quiesce()
 	var c1, c2, s1, s2 error
@@ -150,6 +155,11 @@ func c20Transport(x *X) {
 	case hDeadPeer:
 		call(1)
 		n.conns[0].end.Kill()
+		vs.Quiesce()
+		call(2)
+	case hDeadPeerReset:
+		call(1)
+		n.conns[0].end.Reset()
 		vs.Quiesce()
 		call(2)
 	}
